@@ -5,6 +5,7 @@ ClientConnection.Handle are checked with an independent strict JSON parser, agai
 rows, against the model's fixed16 header and against the model's keep-alive plan."""
 
 import json
+import re
 import os
 import random
 
@@ -166,7 +167,33 @@ def check_raw(v, case, res, model, ctx):
             if not rows or not all(isinstance(x, str) for x in rows[0]) or (ncols is not None and len(rows[0]) != ncols):
                 v.violations.append(("property", case, "column header row missing or malformed: %s" % (rows[:1],)))
                 return None
+    # the body text itself, where the row order is determined and no value needs an escape or is a fraction: the model assembles
+    # it with the definitions the C10Body theorems are about (`Lmd.Body.answerBody`); rows_scanned is not modelled
+    if model is not None and isinstance(model.get("body"), str) and _tame(data):
+        got = re.sub(r'"rows_scanned":\d+', '"rows_scanned":0', body[:-1])
+        v.stats["bodies_compared_as_text"] = v.stats.get("bodies_compared_as_text", 0) + 1
+        if got != model["body"]:
+            v.corr_broken.append((case, "the body text differs from the one the model assembles: impl %r model %r" % (got[:400], model["body"][:400])))
     return data
+
+
+_TAME = re.compile(r"[A-Za-z0-9 _.,:;/()\[\]{}=+*#@!?%$^|~`'-]*\Z")
+
+
+def _tame(x):
+    if isinstance(x, bool):
+        return False
+    if x is None or isinstance(x, int):
+        return True
+    if isinstance(x, str):
+        return bool(_TAME.match(x))
+    if isinstance(x, list):
+        return all(_tame(e) for e in x)
+    if isinstance(x, dict):
+        # the answer object itself (its key order is fixed); custom variable objects are left out
+        return set(x) <= {"data", "failed", "total_count", "rows_scanned", "columns"} and all(_tame(e) for k, e in x.items() if k != "failed") \
+            and all(isinstance(e, str) and _TAME.match(e) for e in x.get("failed", {}).values())
+    return False
 
 
 def run(ctx, spec, out):
